@@ -650,9 +650,10 @@ static int ec_insert(char *loc, char *cmd, char *arg, char *txt)
 	int n;
 	if (ex_region(loc, &beg, &end) && (beg != 0 || end != 0))
 		return 1;
-	if (cmd[0] == 'a' && end > 0)	/* 0a appends before the first line */
-		if (beg + 1 <= lbuf_len(xb))
-			beg++;
+	if (cmd[0] == 'a')	/* after the last addressed line; 0a: before the first */
+		beg = end;
+	if (cmd[0] == 'i')	/* before the last addressed line */
+		beg = MAX(0, end - 1);
 	if (cmd[0] != 'c')
 		end = beg;
 	n = lbuf_len(xb);
@@ -1074,6 +1075,8 @@ static int ec_at(char *loc, char *cmd, char *arg, char *txt)
 	int lnmode;
 	char *buf = reg_get(REG(arg), &lnmode);
 	if (!buf || ex_region(loc, &beg, &end))
+		return 1;
+	if (end == 0 && lbuf_len(xb))	/* address 0 is not a line */
 		return 1;
 	xrow = beg;
 	if (cmd[0] == 'r' && cmd[1] == 'a') {
